@@ -102,7 +102,7 @@ def run_suite(rep, mod, suite, known, build_ok):
                 # looked at every case.  Report the smallest disagreeing input and
                 # whether any input violates the property.
                 first = min(mism, key=lambda i: len(common.canonical(cases[i])))
-                model_says = common.coq_eval(coq["header"], "%s %s" % (coq["fn"], coq["enc"](cases[first], obs[first])[0]))
+                model_says = common.coq_eval(coq["header"], "(%s) %s" % (coq["fn"], coq["enc"](cases[first], obs[first])[0]))
                 rep.violation({"suite": name, "obligation": "correspondence:%s (model %s vs implementation)" % (name, coq["fn"]),
                                "case": cases[first], "implementation": obs[first], "model": model_says,
                                "mismatching_cases": len(mism)},
@@ -172,7 +172,7 @@ def main(argv):
             print("oracle:", s["oracle"](data["case"], o))
         if s.get("coq"):
             c = s["coq"]
-            print("model:", common.coq_eval(c["header"], "%s %s" % (c["fn"], c["enc"](data["case"], o)[0])))
+            print("model:", common.coq_eval(c["header"], "(%s) %s" % (c["fn"], c["enc"](data["case"], o)[0])))
         return 0
 
     rep = Report(cid, tier)
